@@ -10,6 +10,7 @@ mod samples;
 mod c04;
 mod c05;
 mod c06;
+mod c11;
 
 use common::Tier;
 
@@ -24,16 +25,21 @@ fn main() {
         _ => Tier::Quick,
     };
     common::quiet_panics();
-    match args[1].as_str() {
+    let r = std::panic::catch_unwind(|| match args[1].as_str() {
         "C02" => c02::run(tier),
         "C01" => c01::run(tier),
         "C04" => c04::run(tier),
         "C05" => c05::run(tier),
         "C06" => c06::run(tier),
+        "C11" => c11::run(tier),
         "bind" => { let r = samples::bind_or_die(); println!("rsig ok {} rejected {} ; rdl validations {} exec-error {} skipped {:?}", r.rsig_accepted, r.rsig_rejected, r.rdl_validations, r.rdl_exec_error_validations, r.rdl_skipped); }
         other => {
             eprintln!("unknown property {other}");
             std::process::exit(2);
         }
+    });
+    if r.is_err() {
+        eprintln!("MACHINERY: engine panic outside a guarded call: {:?}", common::LAST_PANIC_GLOBAL.lock().ok().and_then(|g| g.clone()));
+        std::process::exit(2);
     }
 }
